@@ -4,6 +4,8 @@
 package main
 
 import (
+	"time"
+	"runtime/pprof"
 	"fmt"
 	"os"
 	"runtime/debug"
@@ -76,6 +78,17 @@ func usage() {
 }
 
 func runCheck(prop, tier string) (code int) {
+	if f := os.Getenv("GDSA_CPUPROFILE"); f != "" {
+		if w, err := os.Create(f); err == nil {
+			pprof.StartCPUProfile(w)
+			defer pprof.StopCPUProfile()
+			go func() { // development aid: a profile of the first 40 seconds of a run that takes too long
+				time.Sleep(40 * time.Second)
+				pprof.StopCPUProfile()
+				os.Exit(3)
+			}()
+		}
+	}
 	fn, ok := registry[prop]
 	rp := NewReport(prop, tier)
 	if !ok {
@@ -100,9 +113,36 @@ func runCheck(prop, tier string) (code int) {
 	// even in the quick tier
 	canaryCh := startCanary(prop)
 	fn(p, rp)
+	reportGlobalMutations(rp, prop)
 	if tier == "thorough" {
 		runControls(prop, rp)
 	}
 	finishCanary(prop, rp, canaryCh)
 	return rp.Finish()
+}
+
+// reportGlobalMutations adds what the interpreter itself saw: a package-level variable whose value
+// differs between the start and the end of an interpreted call (writes through aliases included,
+// which the address-based part of the Cnn-STATE rules cannot follow).
+func reportGlobalMutations(rp *Report, prop string) {
+	var r *Rule
+	for _, x := range rp.Rules {
+		if x.ID == prop+"-STATE" {
+			r = x
+		}
+	}
+	if r == nil {
+		r = rp.Rule(prop+"-STATE", "no entry point of this property writes package-level state: results depend only on the arguments", 1)
+	}
+	var names []string
+	for n := range globalMutations {
+		names = append(names, n)
+	}
+	sort.Strings(names)
+	for _, n := range names {
+		r.bad("interpreted:"+n, "", globalMutations[n]+": what a call returns can depend on earlier calls, and concurrent calls share mutable state", nil)
+	}
+	if len(names) == 0 {
+		r.ok("interpreted runs", "", "every interpreted call of this check left the package-level variables of the repository as it found them")
+	}
 }
